@@ -1,8 +1,8 @@
 ------------------------------ MODULE OpHeapGen ------------------------------
 (***************************************************************************)
-(* Generator for C06: explores OpHeap exhaustively (NParams = 1, so the    *)
-(* two rebind targets are exactly the two parameter sets "v0" / "v1" of an *)
-(* instance) and emits every history of MaxSteps actions in which an       *)
+(* Generator for C06: explores OpHeap exhaustively (rebind always installs *)
+(* one of the two parameter sets "v0" / "v1" of an instance in every       *)
+(* parameter cell) and emits every history of MaxSteps actions in which an *)
 (* in-place write, if any, is the last action.  A step is                  *)
 (*   [act, src, arg]   arg = parameter set for rebind ("v0"/"v1"),         *)
 (*                     "p" / "h" for mutate (parameter array / container). *)
